@@ -42,6 +42,7 @@ func genCmpCase(rt *rapid.T, prop, op string, d DT, form, via, mode string, same
 		}
 		c.Dst = genDst(rt, shape, dd, "dst")
 	}
+	c.SafeOpt = c.Mode == "safe" && rapid.IntRange(0, 5).Draw(rt, "safeopt") == 0
 	return c
 }
 
@@ -65,6 +66,7 @@ func genUnaryCase(rt *rapid.T, prop, op string, d DT, mode string, layouts []str
 	if mode == "reuse" || mode == "incr" {
 		c.Dst = genDst(rt, shape, d, "dst")
 	}
+	c.SafeOpt = c.Mode == "safe" && rapid.IntRange(0, 5).Draw(rt, "safeopt") == 0
 	return c
 }
 
